@@ -1247,6 +1247,13 @@ class Interp:
         elif isinstance(target, ast.Subscript):
             c = self.ev(target.value)
             k = self.ev(target.slice)
+            from .builtins import record_class, record_set
+
+            if isinstance(c, V) and isinstance(c.sort, S.TOpt) and isinstance(c.sort.inner, S.TRef):
+                c = self.coerce(c, c.sort.inner)
+            if record_class(self, c) is not None:
+                record_set(self, c, k, v, target)
+                return
             if isinstance(c.sort, S.TDict) and getattr(c, "meta", None) == "emptylit":
                 nso = S.TDict(k.sort, v.sort, ordered=True)
                 nv = nso.set(nso.empty(), k, v)
@@ -1405,6 +1412,10 @@ class Interp:
                 # pure spec function used as ghost field:  obj.ghostfn  ->  ghostfn(obj)
                 if attr in self.m.fns:
                     return self.call_spec(self.m.fns[attr], [base], {})
+                if so.cls in self.m.classes and self.m.classes[so.cls].record:
+                    from .builtins import value_method
+
+                    return value_method(self, base, attr, node)
                 raise OutOfSubset(f"attribute {so.cls}.{attr} not declared")
             from .builtins import value_method
 
@@ -1560,6 +1571,21 @@ class Interp:
         return r
 
     def ex_Dict(self, n):
+        rc = self.m.options.get("dict_literal_class")
+        if rc and n.keys and all(isinstance(k, ast.Constant) and isinstance(k.value, str) and k.value in self.m.classes[rc].fields for k in n.keys):
+            # a dict literal with this vocabulary of keys is an instance of the declared record class
+            ref = self.new_ref(rc)
+            given = {k.value: v for k, v in zip(n.keys, n.values)}
+            for f, so in self.m.classes[rc].fields.items():
+                if f in given:
+                    from .builtins import wrap_present
+
+                    self.set_field(ref, f, wrap_present(self, self.ev(given[f]), so))
+                elif isinstance(so, S.TOpt):
+                    self.set_field(ref, f, so.none())
+                else:
+                    raise OutOfSubset(f"record literal without mandatory key {f}")
+            return ref
         if not n.keys:
             v = S.TDict(TVal, TVal).empty()
             v.meta = "emptylit"
@@ -2003,14 +2029,21 @@ class Interp:
         return V(fs.ret, tuple(f(*flat) for f in self.eng.ufuncs[key]))
 
     def raise_from_call(self, fs, k, en, env, pre_st):
-        self.st.locals = env
-        self.havoc_assigns(fs, pre_st)
-        if fs.raise_ensures[k] is not None:
-            self.st.assume(self.ev_spec(fs.raise_ensures[k]))
         exc = ExcObj(en, (), origin=f"call {fs.name}")
         if k in fs.reraise:
             # the callee raises the very exception object it was given (identity matters to callers that compare with `is`)
             exc = env[fs.reraise[k]]
+        env = dict(env)
+        env["raised"] = exc
+        self.st.locals = env
+        self.havoc_assigns(fs, pre_st)
+        if fs.raise_ensures[k] is not None:
+            c = fs.raise_ensures[k]
+            if _is_raised_identity(c):
+                # `raised is <param>`: the callee re-raises the object it was handed
+                exc = env[c.comparators[0].id]
+            else:
+                self.st.assume(self.ev_spec(c))
         raise PyRaise(exc)
 
     def havoc_assigns(self, fs, pre_st):
@@ -2131,6 +2164,11 @@ def _pure_expr(n):
         if isinstance(x, (ast.Subscript, ast.Attribute)):
             return False
     return True
+
+
+def _is_raised_identity(c):
+    return (isinstance(c, ast.Compare) and isinstance(c.left, ast.Name) and c.left.id == "raised" and len(c.ops) == 1
+            and isinstance(c.ops[0], ast.Is) and isinstance(c.comparators[0], ast.Name))
 
 
 def _never_returns(fs):
